@@ -33,6 +33,15 @@ func TestVerif_C28_Agent(t *testing.T) {
 		dirs[i] = t.TempDir()
 	}
 	r.ParCases("frames", n, 4, func(ci int, rng *verifkit.Rand) { c28AgentCase(r, "frames", ci, rng, dirs[ci]) })
+	nm := r.N(64, 480)
+	mdirs := make([]string, nm)
+	for i := range mdirs {
+		mdirs[i] = t.TempDir()
+	}
+	r.ParCases("matrix", nm, 4, func(ci int, rng *verifkit.Rand) { c28MatrixCase(r, "matrix", ci, rng, mdirs[ci]) })
+	r.Require("relay_invalid_not_forwarded", 80)
+	r.Require("relay_valid_forwarded", 15)
+	r.Require("nokey_control_forwards", 10)
 	np := r.N(9, 48)
 	pdirs := make([]string, np)
 	for i := range pdirs {
@@ -60,7 +69,22 @@ type c28AStep struct {
 var c28Paths = []string{"sleep-frame", "wake-frame", "queued-sleep", "queued-wake", "queued-both"}
 
 func c28AgentCase(r *verifkit.R, phase string, ci int, rng *verifkit.Rand, dir string) {
-	h, err := c28NewRig(r, rng, dir, 2)
+	c28AgentCaseOpts(r, phase, ci, rng, dir, c28RigOpts{})
+}
+
+// c28MatrixCase runs the same frame histories against every configuration combination of
+// the agent under test: {signing public key set / not} x {sleep.enabled true / false} x
+// {private key present / not}. Whenever a public key is configured nothing that fails
+// verification may be acted on or forwarded — also by a pure relay that never sleeps
+// itself. Without a public key the property does not apply; those cases are controls that
+// show the observation points see forwards when forwarding is allowed.
+func c28MatrixCase(r *verifkit.R, phase string, ci int, rng *verifkit.Rand, dir string) {
+	o := c28RigOpts{NoKey: ci%8 >= 6, NoSleep: ci%2 == 1, Priv: 1 + (ci/2)%2}
+	c28AgentCaseOpts(r, phase, ci, rng, dir, o)
+}
+
+func c28AgentCaseOpts(r *verifkit.R, phase string, ci int, rng *verifkit.Rand, dir string, opts c28RigOpts) {
+	h, err := c28NewRigOpts(r, rng, dir, 2, opts)
 	if err != nil {
 		r.Inconclusive("rig: " + err.Error())
 		return
@@ -72,16 +96,29 @@ func c28AgentCase(r *verifkit.R, phase string, ci int, rng *verifkit.Rand, dir s
 	validTuples := map[string]bool{}
 	var genuines []*c28Cmd
 	validTrans, invalidEff := 0, 0
+	relay := opts.NoSleep
+	cfgName := fmt.Sprintf("key=%v,sleep=%v,priv=%v", !opts.NoKey, !opts.NoSleep, h.canSign)
+	// without a configured public key the property does not apply: observe, do not judge
+	violation := func(key, detail string) {
+		if opts.NoKey {
+			r.Add("nokey_control_unverified_effects", 1)
+			return
+		}
+		if relay {
+			key = "relay-" + key
+		}
+		r.Violation(key, phase, ci, detail+" ["+cfgName+"]", steps)
+	}
 
 	checkForwards := func(path string, rx []c28Rx, allowedNow map[string]bool, stepHasValid bool, offending string) {
 		for _, tu := range c28RxTuples(rx) {
 			r.Add("forwarded_frames_checked", 1)
 			if !stepHasValid {
-				r.Violation("agent:"+path+":"+offending+":forwarded", phase, ci,
-					"the agent sent a sleep/wake command to a peer while handling a frame that carries no valid command", steps)
+				violation("agent:"+path+":"+offending+":forwarded",
+					"the agent sent a sleep/wake command to a peer while handling a frame that carries no valid command")
 			} else if !allowedNow[tu] && !validTuples[tu] {
-				r.Violation("agent:"+path+":forwarded-never-valid", phase, ci,
-					"the agent sent a sleep/wake command whose signed content is none of the valid commands delivered", steps)
+				violation("agent:"+path+":forwarded-never-valid",
+					"the agent sent a sleep/wake command whose signed content is none of the valid commands delivered")
 			}
 		}
 	}
@@ -97,13 +134,16 @@ func c28AgentCase(r *verifkit.R, phase string, ci int, rng *verifkit.Rand, dir s
 		for _, tu := range c28RxTuples(rx) {
 			r.Add("connect_time_frames_checked", 1)
 			if !validTuples[tu] {
-				r.Violation("agent:connect:forwarded-never-valid", phase, ci,
-					"on peer connect the agent sent a sleep/wake command that is none of the valid commands delivered", steps)
+				violation("agent:connect:forwarded-never-valid",
+					"on peer connect the agent sent a sleep/wake command that is none of the valid commands delivered")
 			}
 		}
 		h.takeEvents()
-		before := h.a.sleepMgr.GetState()
-		awake := before == sleep.StateAwake
+		before := h.state()
+		awake := before == sleep.StateAwake.String()
+		if relay {
+			awake = rng.Bool() // no state: either kind of command is equally "effective" (it would be forwarded)
+		}
 
 		path := verifkit.Pick(rng, c28Paths)
 		mk := func(wake bool) *c28Cmd {
@@ -157,7 +197,7 @@ func c28AgentCase(r *verifkit.R, phase string, ci int, rng *verifkit.Rand, dir s
 			r.Add("queued_state_frames", 1)
 		}
 		allowedNow := map[string]bool{}
-		st := c28AStep{Path: path, Before: before.String()}
+		st := c28AStep{Path: path, Before: before}
 		for _, c := range []*c28Cmd{sc, wc} {
 			if c != nil {
 				st.Cmds = append(st.Cmds, c.witness())
@@ -175,8 +215,8 @@ func c28AgentCase(r *verifkit.R, phase string, ci int, rng *verifkit.Rand, dir s
 			return
 		}
 		sleeps, wakes := h.takeEvents()
-		after := h.a.sleepMgr.GetState()
-		st.After, st.Sleeps, st.Wakes, st.Forwards = after.String(), sleeps, wakes, len(c28RxTuples(rx))
+		after := h.state()
+		st.After, st.Sleeps, st.Wakes, st.Forwards = after, sleeps, wakes, len(c28RxTuples(rx))
 		steps = append(steps, st)
 
 		sValid := sc != nil && sc.valid()
@@ -188,16 +228,16 @@ func c28AgentCase(r *verifkit.R, phase string, ci int, rng *verifkit.Rand, dir s
 			return c28Family(c.Class)
 		}
 		if sleeps > 0 && !sValid {
-			r.Violation("agent:"+path+":"+cls(sc)+":slept", phase, ci,
-				"the agent entered sleep mode although the frame carries no valid sleep command", steps)
+			violation("agent:"+path+":"+cls(sc)+":slept",
+				"the agent entered sleep mode although the frame carries no valid sleep command")
 		}
 		if wakes > 0 && !wValid {
-			r.Violation("agent:"+path+":"+cls(wc)+":woke", phase, ci,
-				"the agent left sleep mode although the frame carries no valid wake command", steps)
+			violation("agent:"+path+":"+cls(wc)+":woke",
+				"the agent left sleep mode although the frame carries no valid wake command")
 		}
 		if sleeps == 0 && wakes == 0 && after != before {
-			r.Violation("agent:"+path+":state-changed-without-callback", phase, ci,
-				"sleep state changed although neither OnSleep nor OnWake ran", steps)
+			violation("agent:"+path+":state-changed-without-callback",
+				"sleep state changed although neither OnSleep nor OnWake ran")
 		}
 		offending := cls(sc)
 		if sc == nil {
@@ -211,6 +251,25 @@ func c28AgentCase(r *verifkit.R, phase string, ci int, rng *verifkit.Rand, dir s
 		}
 
 		// bookkeeping for floors / non-triviality
+		if relay || opts.NoKey {
+			switch {
+			case opts.NoKey:
+				r.Add("nokey_control_frames", 1)
+				r.Add("nokey_control_forwards", st.Forwards)
+			case sValid || wValid:
+				if st.Forwards > 0 {
+					validTrans++
+					r.Add("relay_valid_forwarded", 1)
+				}
+			default:
+				invalidEff++
+				if st.Forwards == 0 {
+					r.Add("relay_invalid_not_forwarded", 1)
+				}
+			}
+			fp += fmt.Sprintf("%s/%s/%s/%s/%d;", cfgName, path, cls(sc), cls(wc), st.Forwards)
+			continue
+		}
 		if sc != nil && !sValid && awake {
 			invalidEff++
 			if sleeps == 0 {
@@ -232,7 +291,8 @@ func c28AgentCase(r *verifkit.R, phase string, ci int, rng *verifkit.Rand, dir s
 		}
 		fp += fmt.Sprintf("%s/%s/%s/%d/%d/%d;", path, cls(sc), cls(wc), sleeps, wakes, st.Forwards)
 	}
-	nt := validTrans > 0 && invalidEff > 0
+	nt := validTrans > 0 && invalidEff > 0 && !opts.NoKey
+	r.Add("cases_"+cfgName, 1)
 	r.Eval(fp, nt)
 	if nt && r.NeedSample() {
 		r.Sample(steps)
